@@ -1685,7 +1685,7 @@ func (vm *Vm) Call(argc int32, starArgs py.Object, starKwargs py.Object) error {
 		// FIXME should be some sort of dictionary iterator...
 		starKwargsDict, ok := starKwargs.(py.StringDict)
 		if !ok {
-			return py.ExceptionNewf(py.SystemError, "FIXME can't use %T as **kwargs", starKwargs)
+			return py.ExceptionNewf(py.TypeError, "%s%s argument after ** must be a mapping, not %s", EvalGetFuncName(fn), EvalGetFuncDesc(fn), starKwargs.Type().Name)
 		}
 		for k, v := range starKwargsDict {
 			if _, ok := kwargs[k]; ok {
